@@ -201,6 +201,8 @@ def main(argv=None):
     # ---- job list ---------------------------------------------------------------------------------------------
     jobs = []
     for c in conds:
+        if "not (True)" in excludes.get(c["fn"], []):
+            continue        # a known finding covers this whole condition: only its witness is replayed (above)
         cubes = c["cubes"][tier] if isinstance(c["cubes"], dict) else c["cubes"]
         tmo = c.get("timeout", {}).get(tier, timeout) if isinstance(c.get("timeout"), dict) else timeout
         for cube in cubes:
